@@ -156,6 +156,11 @@ var trustCfgs = []trustCfg{
 		After: func(ctx context.Context, c ipfscluster.Consensus, t, u peer.ID) { c.Distrust(ctx, t) }},
 	{Name: "crdt-list[T]+tracing", List: func(t, u peer.ID) []peer.ID { return []peer.ID{t} }, TrustedT: true, Tracing: true},
 	{Name: "crdt-empty-list+tracing", List: func(t, u peer.ID) []peer.ID { return nil }, Tracing: true},
+	// the join handshake (open endpoint Cluster.PeerAdd -> Consensus.AddPeer) gives no trust
+	{Name: "crdt-list[T]-then-AddPeer(U)", List: func(t, u peer.ID) []peer.ID { return []peer.ID{t} },
+		After: func(ctx context.Context, c ipfscluster.Consensus, t, u peer.ID) { c.AddPeer(ctx, u) }, TrustedT: true},
+	{Name: "crdt-empty-list-then-AddPeer(U)", List: func(t, u peer.ID) []peer.ID { return nil },
+		After: func(ctx context.Context, c ipfscluster.Consensus, t, u peer.ID) { c.AddPeer(ctx, u) }},
 	{Name: "crdt-list[T,U]-then-Distrust(U)", List: func(t, u peer.ID) []peer.ID { return []peer.ID{t, u} },
 		After: func(ctx context.Context, c ipfscluster.Consensus, t, u peer.ID) { c.Distrust(ctx, u) }, TrustedT: true},
 }
